@@ -301,7 +301,7 @@ def main():
         'version': 1,
         'setup_cmd': 'cd lean && lake build Sx sxmodel ' + ' '.join('Sx.Props.' + c['property_id'] for c in checks),
         'hooks': {'guard': 'SX127X_VERIF',
-                  'enable': 'no source hooks are needed: the harness links the unchanged src/sx127x.c against its own SPI entry points (the guard name is reserved and unused)',
+                  'enable': 'no source hooks are needed: the harness links the unchanged src/sx127x.c against its own SPI entry points (the guard name is reserved and unused); the only instrumentation is on the compiler command line of the harness build: harness/memcheck.h is force-included (-include) into the driver\'s translation unit so that its memcpy calls are checked against the sub-object they touch',
                   'baseline_off_cmd': 'bash /verif/baseline.sh', 'source_commits': [], 'add_only': True},
         'engines': [{'name': 'lean4+correspondence', 'path': 'check.py', 'serves_properties': [c['property_id'] for c in checks],
                      'kind_free_text': 'Lean 4 theorems about an executable model (lean/), tied to the code by regenerated constants (gen/extract.py) and by trace correspondence between the real driver under sanitizers with a chip simulator (harness/sxh.c) and the compiled model (sxmodel)'}],
